@@ -322,6 +322,33 @@ func (n *vNode) drain(s vSession, lastseen string) ([]robust.Message, error) {
 	return out, err
 }
 
+// drainVia is like drain, but the marker is a PRIVMSG to #c posted by a separate sentinel session (which
+// must be on #c together with s), so that the observed session itself posts nothing -- its
+// duplicate-detection marker stays what the test made it.
+func (n *vNode) drainVia(sentinel, s vSession, lastseen string) ([]robust.Message, error) {
+	vDrainCounter++
+	token := fmt.Sprintf("drain-%d", vDrainCounter)
+	if r := n.post(sentinel, "PRIVMSG #c :"+token, uint64(1000000+vDrainCounter)); r.Code != 200 {
+		return nil, fmt.Errorf("HARNESS: drain marker refused: %d %s", r.Code, r.Body)
+	}
+	msgs, _, err := n.stream(s, s.Auth, lastseen, func(lines []robust.Message) bool {
+		for _, m := range lines {
+			if strings.HasSuffix(m.Data, token) {
+				return true
+			}
+		}
+		return false
+	})
+	var out []robust.Message
+	for _, m := range msgs {
+		if strings.Contains(m.Data, "drain-") {
+			continue
+		}
+		out = append(out, m)
+	}
+	return out, err
+}
+
 // logEntries returns the decoded command entries of the durable raft log.
 func (n *vNode) logEntries() []robust.Message {
 	first, _ := n.logStore.FirstIndex()
